@@ -32,12 +32,12 @@ func racerMain() {
 		addBareTypes(r0, s)
 		all := jsonapi.Type{Name: "allkinds"}
 		for k := 1; k <= 14; k++ {
-			_ = all.AddAttr(jsonapi.Attr{Name: "a" + strconv.Itoa(k), Type: k})
-			_ = all.AddAttr(jsonapi.Attr{Name: "n" + strconv.Itoa(k), Type: k, Nullable: true})
+			putAttr(&all, jsonapi.Attr{Name: "a" + strconv.Itoa(k), Type: k})
+			putAttr(&all, jsonapi.Attr{Name: "n" + strconv.Itoa(k), Type: k, Nullable: true})
 		}
-		_ = all.AddRel(jsonapi.Rel{FromType: "allkinds", FromName: "many", ToType: "allkinds"})
+		putRel(&all, jsonapi.Rel{FromType: "allkinds", FromName: "many", ToType: "allkinds"})
 		if bt, err := jsonapi.BuildType(reflect.New(structTypeFor(all)).Interface()); err == nil {
-			_ = s.AddType(bt)
+			putType(s, bt)
 			ts = append(ts, stype{bt, true})
 		}
 		roundEnd := time.Now().Add(15 * time.Millisecond)
